@@ -12,13 +12,17 @@ A step is one of
     ["settag", target, tag, value]     line.set(tag, value)
     ["deltag", target, tag]            line.delete(tag)
     ["setfield", target, field, value] line.set(field, value)          (illegal edits of connected lines, C08)
+    ["convert", how]                   getattr(g, how)()     how in to_gfa1_s / to_gfa2_s / to_gfa1 / to_gfa2
+    ["convertline", target, how]       getattr(line, how)()  (both only with the optional generator feature convert)
 Dropping the identifier of an ID-tagged L/C line (optional generator feature "dropid") is written with the existing
 step forms:  ["deltag", t, "ID"]  line.delete("ID");  ["settag", t, "ID", None]  line.set("ID", None);
 ["setfield", t, "name", None]  line.set("name", None) (what `line.name = None` does).
 where target is an identifier ("A") or "@RT:idx" (idx-th non-virtual line of that record type, modulo the
 number of such lines).
 
-Optional generator features (repeated lines, dropid, retag = remove a tag and set it again with another type, refused
+Giving an L/C line its identifier while it is connected (optional generator feature "giveid") is written
+["settag", t, "ID", n]  line.set("ID", n); the text model treats it as a rename (refused when n is in use).
+Optional generator features (repeated lines, dropid, giveid, convert, dup-link-over-placeholder, retag = remove a tag and set it again with another type, refused
 values for new tags, header lines refused next to their VN tag, header-first prelude for a Gfa of unknown version,
 seg_lengths = segments of other lengths than 10, the empty segment included) are
 switched on per property through profile(); they are listed in the comment above profile().  Without them the
@@ -497,12 +501,30 @@ class TextModel:
         r[n:] = [t for t in r[n:] if t[:2] != "ID"]
         return "ambiguous:delete-id-tag"
 
+    def setid(self, i, new):
+        """line.set("ID", new) on an L/C record (only generated by the optional feature giveid): a rename when the
+        record carries an identifier already, else the record takes the identifier - refused when it is in use"""
+        r = self.recs[i]
+        if rec_id(r, self.v) is not None:
+            return self.rename(i, new)
+        if not re.match("^%s$" % _N, new):
+            return "ambiguous:odd-name"
+        if new in self.ids():
+            return "illegal:id-in-use"
+        if new in self.mentioned():
+            return "ambiguous:rename-onto-placeholder"
+        n = npos(r, self.v)
+        r[n:] = [t for t in r[n:] if t[:2] != "ID"] + ["ID:Z:" + new]
+        return "ok"
+
     def settag(self, i, tag, val):
         r = self.recs[i]
         if r[0] in "H#":
             return "ambiguous:tag-on-header"
         if val is None:
             return self.deltag(i, tag)
+        if tag == "ID" and r[0] in "LC" and isinstance(val, str):
+            return self.setid(i, val)
         if not re.match(r"^[A-Za-z][A-Za-z0-9]$", tag):
             return "illegal:tagname"
         t = "%s:i:%d" % (tag, val) if isinstance(val, int) else "%s:Z:%s" % (tag, val)
@@ -530,6 +552,10 @@ class TextModel:
         op = step[0]
         if op == "add":
             return self.add(step[1])
+        if op in ("convert", "convertline"):
+            # (optional feature convert) the text of the other version is asked for; a GFA1 link / containment without
+            # ID tag that is converted is given an identifier the model does not know: callers that compare stop
+            return "ambiguous:conversion"
         if op == "rmline":
             target = "@%s:%d" % (step[1], step[2])
         else:
@@ -598,6 +624,22 @@ PROFILE = {
 #                        legal length ("S x 0 *" is an empty segment); also used for the segment line of a dup-same /
 #                        dup-other call.  Positions of E/F lines stay what they are (nothing ties them to slen)
 #                                                                 label add:S:len<n> when n != 10, else add:S as before
+#   fails["dup-link-over-placeholder"]=w   (GFA1) a link that runs over a step of a stored path which no stored link
+#                        covers (the Gfa holds a placeholder link for that step, which the arriving link replaces), in
+#                        the direction of the step or as its complement, with the overlap of the step or '*', and with
+#                        an ID tag that is the identifier of another line (half of the time, when there is one, of
+#                        another link).  When no stored path has such a step, a two-segment path over an uncovered
+#                        step is added first (label add:P)        label fail:dup-link-over-placeholder:<RT of the owner>
+#   ops["giveid"]=w      line.set("ID", n) on a connected L/C line, written ["settag", t, "ID", n]: 80% on a line that
+#                        has no ID tag yet (it gets its identifier while in the Gfa), else on one that has (a rename
+#                        spelled as a tag assignment); n is neither in use nor mentioned            label giveid:<RT>
+#   fails["giveid-existing"]=w   the same call with the identifier of another line
+#                                                                      label fail:giveid-existing:<RT>/<RT of the owner>
+#   ops["convert"]=w     the Gfa (["convert", how]) or one of its lines (["convertline", t, how]; GFA1: 85% an L/C line,
+#                        GFA2: 60% an E line) is asked for its form in the other - sometimes its own - version: how is
+#                        one of to_gfa1_s / to_gfa2_s (text) / to_gfa1 / to_gfa2 (objects).  The calls are queries, but
+#                        gfapy gives every connected GFA1 link / containment without ID tag an identifier (unused_name())
+#                        when it is converted to GFA2                               labels convert:gfa, convert:<RT>
 # gen_fail / gen_mutation may return a list of (step, label) pairs instead of one pair: the steps follow each other.
 def profile(**kw):
     p = dict(PROFILE)
@@ -1040,6 +1082,49 @@ def gen_fail(rng, m, prof):
                 continue
             a = rng.choice(sorted(ids)); b = rng.choice(ph)
             return ["rename", a, b], "fail:rename-placeholder:%s" % m.recs[ids[a]][0]
+        if k == "dup-link-over-placeholder":
+            # optional (no weight by default): a link arrives for a path step that only a placeholder link covers, and
+            # wears the identifier of another line
+            if v != "gfa1" or not ids:
+                continue
+            out = []
+            open_steps = [st for r in m.recs if r[0] == "P" for st in m.path_steps(r) if not m.links_matching(*st)]
+            if not open_steps:
+                free = _unused(rng, m, PATH_IDS)
+                if free is None:
+                    continue
+                for _try in range(6):
+                    st = (_pick_seg(rng, m, prof), rng.choice("+-"), _pick_seg(rng, m, prof), rng.choice("+-"), "*")
+                    if not m.links_matching(*st):
+                        break
+                else:
+                    continue
+                out.append((["add", "P\t%s\t%s%s,%s%s\t*" % ((free,) + st[:4])], "add:P"))
+                open_steps = [st]
+            a, oa, b, ob, ov = rng.choice(open_steps)
+            links = [n for n in sorted(ids) if m.recs[ids[n]][0] == "L"]
+            cand = [n for n in (links if links and rng.chance(0.5) else sorted(ids)) if n not in (a, b)]
+            if not cand:
+                continue
+            n = rng.choice(cand)
+            f = ["L", a, oa, b, ob, ov if rng.chance(0.5) else "*"]
+            if rng.chance(0.4):
+                f = link_compl(f)
+            out.append((["add", "\t".join(f + ["ID:Z:" + n])],
+                        "fail:dup-link-over-placeholder:%s" % m.recs[ids[n]][0]))
+            return out if len(out) > 1 else out[0]
+        if k == "giveid-existing":
+            # optional (no weight by default): line.set("ID", n) on an L/C line, n the identifier of another line
+            c = _line_targets(rng, m, lambda r: r[0] in "LC")
+            if not c or not ids:
+                continue
+            anon = [x for x in c if rec_id(x[1], v) is None]
+            t, r = rng.choice(anon) if anon and rng.chance(0.8) else rng.choice(c)
+            cand = [n for n in sorted(ids) if n != rec_id(r, v)]
+            if not cand:
+                continue
+            n = rng.choice(cand)
+            return ["settag", t, "ID", n], "fail:giveid-existing:%s/%s" % (r[0], m.recs[ids[n]][0])
         if k == "header-dt":
             # a header tag defined exactly once gets a second definition of another datatype (refused at vlevel >= 2),
             # next to tags that are fine: nothing of the refused line may stay in the header
@@ -1214,6 +1299,26 @@ def gen_mutation(rng, m, prof, op):
         if rt in "LC":
             return rng.choice([["deltag", n, "ID"], ["settag", n, "ID", None], ["setfield", n, "name", None]]), "dropid:" + rt
         return ["rename", n, "*"], "dropid:" + rt
+    if op == "giveid":
+        # optional (no weight by default): line.set("ID", n) on a connected L/C line, mostly one without ID tag
+        c = _line_targets(rng, m, lambda r: r[0] in "LC")
+        men = m.mentioned()
+        free = [x for x in EDGE_IDS + FRESH if x not in ids and x not in men]
+        if not c or not free:
+            return None
+        anon = [x for x in c if rec_id(x[1], m.v) is None]
+        t, r = rng.choice(anon) if anon and rng.chance(0.8) else rng.choice(c)
+        return ["settag", t, "ID", rng.choice(free)], "giveid:" + r[0]
+    if op == "convert":
+        # optional (no weight by default): the Gfa or one of its lines is asked for its form in the other version
+        other = "gfa2" if m.v == "gfa1" else "gfa1"
+        how = rng.choice(["to_%s_s" % other] * 3 + ["to_%s" % other] * 2 + ["to_%s_s" % m.v])
+        c = _line_targets(rng, m)
+        if c and rng.chance(0.5):
+            pref = [x for x in c if x[1][0] in ("LC" if m.v == "gfa1" else "E")]
+            t, r = rng.choice(pref) if pref and rng.chance(0.85 if m.v == "gfa1" else 0.6) else rng.choice(c)
+            return ["convertline", t, how], "convert:" + r[0]
+        return ["convert", how], "convert:gfa"
     if op == "rename":
         if not named:
             return None
@@ -1409,8 +1514,11 @@ def resolve(g, target):
     return g.line(target)
 
 
+CONVERSIONS = ("to_gfa1_s", "to_gfa2_s", "to_gfa1", "to_gfa2")
+
+
 def step_target(step):
-    if step[0] == "add":
+    if step[0] in ("add", "convert"):
         return None
     if step[0] == "rmline":
         return "@%s:%d" % (step[1], step[2])
@@ -1428,6 +1536,10 @@ def apply_step(g, step, line=None):
         return lib.outcome(lambda: g.add_line(gfapy.Line(step[1], vlevel=0, version=g.version)))
     if op == "rm":
         return lib.outcome(g.rm, step[1])
+    if op == "convert":
+        if step[1] not in CONVERSIONS:
+            return ("skip", "unknown-conversion")
+        return lib.outcome(getattr(g, step[1]))
     if line is None:
         r = lib.outcome(resolve, g, step_target(step))
         if r[0] != "ok":
@@ -1447,6 +1559,10 @@ def apply_step(g, step, line=None):
         return lib.outcome(line.delete, step[2])
     if op == "setfield":
         return lib.outcome(line.set, step[2], step[3])
+    if op == "convertline":
+        if step[2] not in CONVERSIONS:
+            return ("skip", "unknown-conversion")
+        return lib.outcome(getattr(line, step[2]))
     return ("skip", "unknown-op")
 
 
